@@ -324,6 +324,103 @@ pub fn run_w(w: &str) -> i32 {
     if all.is_empty() { println!("not reproduced: every clause holds on this history"); 0 } else { for w in &all { println!("REPRODUCED: {w}"); } 1 }
 }
 
+// ---- C08 crash enumeration on the real binary: `bisync` killed right before EVERY one of its file-system write calls ----
+fn crash_setups() -> Vec<(&'static str, Vec<Step>, Vec<Step>)> {
+    vec![
+        ("mixed-after-a-first-sync",
+         vec![W(0, "p", "p1"), W(0, "m", "m1"), W(0, "del", "d1"), W(0, "c", "base"), W(0, "dm", "dm-base"), W(0, "sub/deep", "deep1"), S],
+         vec![W(0, "new", "brand-new-file"), W(0, "m", "m2-modified-on-A"), W(1, "p", "p2-modified-on-B"), D(0, "del"), W(0, "c", "aaa-conflict"), W(1, "c", "bbb-conflict"), D(0, "dm"), W(1, "dm", "dm-changed-on-B"), W(1, "sub/deep", "deep2-from-B")]),
+        ("first-run-without-archive", vec![], vec![W(0, "x", "x1"), W(1, "y", "y1"), W(0, "z", "za-version"), W(1, "z", "zb-version"), W(0, "d/e", "e1")]),
+    ]
+}
+fn apply_plain(env: &Env, steps: &[Step]) {
+    for st in steps { match st {
+        W(s, p, c) => { let f = env.side(*s).join(p); if let Some(d) = f.parent() { let _ = std::fs::create_dir_all(d); } let _ = std::fs::write(f, c); }
+        D(s, p) => { let _ = std::fs::remove_file(env.side(*s).join(p)); }
+        S => { let _ = env.run(false); }
+        _ => {}
+    } }
+}
+fn bisync_cmd(env: &Env) -> Command {
+    let mut c = Command::new(std::env::var("COPIA_BIN").unwrap_or_default());
+    c.arg("bisync").arg(env.side(0)).arg(env.side(1)).env("HOME", env.dir.join("home")).env("HOSTNAME", "vh").env("RUST_BACKTRACE", "0").env("TOKIO_WORKER_THREADS", "1")
+        .stdin(std::process::Stdio::null()).stdout(std::process::Stdio::null()).stderr(std::process::Stdio::null());
+    c
+}
+/// one setup, one kill point. (violation, was the process killed)
+pub fn crash_point(si: usize, k: usize) -> (Option<String>, bool) {
+    let setups = crash_setups();
+    let (name, pre, change) = &setups[si.min(setups.len() - 1)];
+    // reference: the uninterrupted run
+    let rf = Env::new(&format!("crashref{si}"));
+    apply_plain(&rf, pre); apply_plain(&rf, change);
+    let _ = rf.run(false);
+    let (ra, rb) = (rf.tree(0), rf.tree(1));
+    let env = Env::new(&format!("crash{si}k{k}"));
+    apply_plain(&env, pre); apply_plain(&env, change);
+    let (ta, tb) = (env.tree(0), env.tree(1));
+    let arch_before = env.archive_file().and_then(|a| std::fs::read(a).ok());
+    let Some(o) = crate::killer::run(&mut bisync_cmd(&env), k) else { return (None, false) };
+    if !o.killed { return (None, false); }
+    let at = o.last.replace(&env.dir.to_string_lossy().into_owned(), "");
+    let (ka, kb) = (env.tree(0), env.tree(1));
+    let versions: BTreeSet<&Vec<u8>> = ta.values().chain(tb.values()).collect();
+    for (t, sname) in [(&ka, "A"), (&kb, "B")] { for (p, v) in t.iter() {
+        if !p.ends_with(".copia-tmp") && !versions.contains(v) { return (Some(format!("[{name}] killed right before its {k}-th file-system write call `{at}`: `{p}` on side {sname} holds {} bytes that are no complete version of anything that existed before the run (a partial file at a live path) (C08)", v.len())), true); }
+    } }
+    // the recorded state on disk: the old one, absent, or a complete new one whose every entry is in place on both sides
+    if let Some(a) = env.archive_file() {
+        let now = std::fs::read(&a).unwrap_or_default();
+        if Some(&now) != arch_before.as_ref() {
+            match serde_json::from_slice::<serde_json::Value>(&now) {
+                Err(_) => return (Some(format!("[{name}] killed before call {k} `{at}`: the archive on disk is neither the old one nor a complete new one (it does not parse) (C08)")), true),
+                Ok(v) => { if let Some(m) = v.get("entries").and_then(|e| e.as_object()) { for (p, fp) in m {
+                    let hx: String = fp.get("blake3").and_then(|x| x.as_array()).map(|xs| xs.iter().map(|b| format!("{:02x}", b.as_u64().unwrap_or(0))).collect()).unwrap_or_default();
+                    for (t, sname) in [(&ka, "A"), (&kb, "B")] { if t.get(p).map(|b| b3(b)) != Some(hx.clone()) { return (Some(format!("[{name}] killed before call {k} `{at}`: the NEW recorded state is already on disk but `{p}` on side {sname} is not yet the file it describes (C08)")), true); } }
+                } } }
+            }
+        }
+    } else if arch_before.is_some() && !env.dir.join("home/.copia/archive").read_dir().map(|mut d| d.next().is_some()).unwrap_or(false) {
+        // absent is allowed by the property
+    }
+    // recovery: run again (repeat if a run stops on an I/O error caused by a leftover staging file)
+    let mut code = None;
+    for _ in 0..3 { let (c, out) = env.run(false); code = c; if c == Some(0) || out.contains("conflict(s) preserved") { break; } }
+    let (fa, fb) = (env.tree(0), env.tree(1));
+    let strip = |t: &Tree| -> Tree { t.iter().filter(|(p, _)| !p.ends_with(".copia-tmp")).map(|(p, v)| (p.clone(), v.clone())).collect() };
+    if strip(&fa) != strip(&ra) || strip(&fb) != strip(&rb) {
+        let d: BTreeSet<String> = fa.keys().chain(ra.keys()).filter(|p| fa.get(*p) != ra.get(*p)).chain(fb.keys().chain(rb.keys()).filter(|p| fb.get(*p) != rb.get(*p))).cloned().collect();
+        return (Some(format!("[{name}] killed before call {k} `{at}`, then bisync was run again (last exit {code:?}): the trees differ from what an uninterrupted run produces at {d:?} (C08)")), true);
+    }
+    (None, true)
+}
+pub fn crash_search(as_twin: bool, thorough: bool) -> i32 {
+    if std::env::var("COPIA_BIN").unwrap_or_default().is_empty() { eprintln!("COPIA_BIN not set"); if as_twin { println!("CASES 0"); } return 0; }
+    let mut cases = 0;
+    for si in 0..crash_setups().len() {
+        // number of write calls of the uninterrupted run
+        let env = Env::new(&format!("crashcount{si}"));
+        let (_, pre, change) = &crash_setups()[si];
+        apply_plain(&env, pre); apply_plain(&env, change);
+        let n = crate::killer::run(&mut bisync_cmd(&env), 0).map(|o| o.calls).unwrap_or(0);
+        let mut reported = 0;
+        let mut k = 1;
+        while k <= n {
+            let (w, killed) = crash_point(si, k);
+            if killed { cases += 1; }
+            if let Some(what) = w { if reported < 2 { println!("WITNESS {{\"kind\":\"bisync-crash\",\"setup\":{si},\"k\":{k},\"what\":\"{}\"}}", what.replace('"', "'").replace('\n', " ")); } reported += 1; }
+            k += if thorough || k < 30 { 1 } else { 2 };
+        }
+        eprintln!("bisync crash setup {si}: {n} kill points, {reported} violating");
+    }
+    if as_twin { println!("CASES {cases}"); }
+    0
+}
+pub fn run_crash(w: &str) -> i32 {
+    let (si, k) = (json_u64(w, "setup").unwrap_or(0) as usize, json_u64(w, "k").unwrap_or(1) as usize);
+    match crash_point(si, k) { (Some(what), _) => { println!("REPRODUCED: {what}"); 1 } (None, killed) => { println!("not reproduced: setup {si}, kill point {k} (killed: {killed}): complete versions only, recorded state old/absent/new-and-in-place, recovery converges"); 0 } }
+}
+
 /// C07: two different directory pairs never share an archive identifier (shifted-split layout)
 pub fn pair_id_injective() -> Option<String> {
     use crate::cli::archive::root_pair_hash;
